@@ -103,12 +103,16 @@ def eval (line : String) : Option String := do
       let cn ← str? (← lookup kv "cn")
       let cls ← cls? (← lookup kv "cls")
       pure (verdictS (x509Allowed e n cn cls))
-    | "sshhost" =>
-      match sshAllowed e true n [] with
-      | .splitErr => pure "spliterr"
-      | .verdict v => pure (verdictS v)
-    | "sshuser" =>
-      match sshAllowed e false n (dns.map (·.raw)) with
+    | "sshhost" | "sshuser" =>
+      -- side=both|own|other: which SSH sections carry the rule set; a section without names has no engine
+      -- (without `side` the line is a direct call of one section's engine: that engine exists and decides)
+      let side := (lookup kv "side").getD "engine"
+      let has := allow.hasNames || deny.hasNames
+      let eng : Option Engine := if has || side = "engine" then some e else none
+      let own := if side = "other" then none else eng
+      let other := if side = "own" || side = "engine" then none else eng
+      let host := kind = "sshhost"
+      match sshDispatch own other host n (if host then [] else dns.map (·.raw)) with
       | .splitErr => pure "spliterr"
       | .verdict v => pure (verdictS v)
     | _ => none
